@@ -112,7 +112,8 @@ class RegressorChain(BaseRegressor):
             raise ValueError(msg)
 
         for index, algo in enumerate(self.__algos):
-            algo._fit(input_data, output_data)
+            # The regressors may modify the training data in place.
+            algo._fit(input_data.copy(), output_data.copy())
             output_data -= algo._predict(input_data)
             self.__algos[index] = algo
 
